@@ -22,6 +22,10 @@ SPACE = {"6502": 65536, "z80": 65536, "8008": 16384, "1802": 65536, "msp430": 65
          "lc3": 131072, "stm8": 16777216, "65816": 16777216}
 
 
+# first bytes that only select another opcode page (the instruction proper is the second byte)
+PREFIXES = {"z80": [0xdd, 0xfd, 0xed, 0xcb], "65816": [0x42], "stm8": [0x72, 0x90, 0x91, 0x92], "avr8": []}
+
+
 def run(tier, seed):
     chk = C.Check(PROP, tier, seed, "exploration")
     rnd = random.Random(seed)
@@ -49,6 +53,15 @@ def run(tier, seed):
             cid = "%s.t%02x" % (cpu["name"], b)
             meta[cid] = (cpu["name"], p, "ones", 0x200)
             cases.append((cid, "cpu=%s pc=512 regs=%s show=pc;sp;a rep=1" % (cpu["name"], PRESETS[1][1]), "512:%04x%s" % (p, "ff" * 6)))
+        # prefixed (multi-byte) opcodes: every second byte behind the CPU's prefix bytes, with a displacement/operand
+        # of -1 (ff) over zeroed registers and of 0 over all-ones registers: effective addresses of -1 and 0x10000
+        for pre in PREFIXES.get(cpu["name"], []):
+            for b in range(256):
+                for k, (fill, pset) in enumerate((("ff" * 6, 0), ("00" * 6, 1))):
+                    p = (pre << 8) | b
+                    cid = "%s.x%04x.%d" % (cpu["name"], p, k)
+                    meta[cid] = (cpu["name"], p, PRESETS[pset][0], 0x100)
+                    cases.append((cid, "cpu=%s pc=256 regs=%s show=pc;sp;a rep=1" % (cpu["name"], PRESETS[pset][1]), "256:%04x%s" % (p, fill)))
     obs = C.conform_parallel(vdir, "sim", cases, chk.rundir, "c15", 5, nproc=C.NCPU)
     byid = {o["case"]: o for o in obs}
     # a timeout is reported only if it repeats when the case runs alone with a longer limit (a loaded machine
